@@ -101,16 +101,16 @@ def _worker(args):
                     tr.append(w.call("reopen", "A"))
                     for x in i:
                         tr.append(w.call("lookup", x))
-                    if kind == "memory" and op == "create" and b in s:
-                        pass          # duplicate creation is outside the property; the in-memory storage has no UNIQUE constraint
+                    if op == "create" and b in s:
+                        pass          # duplicate creation is outside the property (the statement says nothing about creating an existing id)
                     else:
                         tr.append(w.call(op, b))
                     for x in "ABC":     # what the post-state means to a caller
                         tr.append(w.call("lookup", x))
                 else:
                     for op, b in payload:
-                        if kind == "memory" and op == "create" and b in w.obs()["stored"]:
-                            continue
+                        if op == "create" and b in w.obs()["stored"]:
+                            continue          # duplicate creation: outside the property
                         tr.append(w.call(op, b))
             finally:
                 w.close()
